@@ -57,6 +57,11 @@ pub struct Model<'p> {
     pub execs: HashMap<u32, Vec<ExecRec>>,
     /// firewalls repaired through a RepairFirewall pass in this epoch
     /// (i.e. covered by the firewall set of a root named by the user)
+    /// model clock: one tick per processed event / serve
+    clock: u64,
+    /// (clock, epoch) of the last time a node was handed out: it was
+    /// verified for that epoch at that moment at the latest
+    last_serve: HashMap<u32, (u64, u64)>,
     pub touched: HashSet<u32>,
     /// firewalls in the firewall set of the root of the request in flight:
     /// they become `touched` when the engine reports the end of that
@@ -142,6 +147,8 @@ impl<'p> Model<'p> {
             cyclic_epochs: 0,
             epoch: 0,
             execs: HashMap::new(),
+            clock: 0,
+            last_serve: HashMap::new(),
             touched: HashSet::new(),
             pending: HashSet::new(),
             dirty_since_cover: HashSet::new(),
@@ -414,7 +421,10 @@ impl<'p> Model<'p> {
     /// through the latest edges.
     fn model_t(&self, r: u32) -> HashSet<u32> {
         let Some(rec) = self.last_exec(r) else { return HashSet::new() };
-        let seq = rec.seq;
+        // the engine refreshes a query's firewall set when it verifies the
+        // query, with or without executing it: the reference point is the
+        // last time the query was executed or handed out
+        let seq = rec.seq.max(self.last_serve.get(&r).map_or(0, |s| s.0));
         let old = self.firewall_frontier(r, |m| self.deps_as_of(m, seq));
         let new = self.firewall_frontier(r, |m| self.latest_deps(m));
         old.intersection(&new).copied().collect()
@@ -473,6 +483,14 @@ impl<'p> Model<'p> {
     /// executor).
     pub fn serve(&mut self, n: u32, val: &Val, ctx: &str) -> Result<(), Failure> {
         self.serves += 1;
+        self.clock += 1;
+        let now = self.clock;
+        let r = self.serve_inner(n, val, ctx);
+        self.last_serve.insert(n, (now, self.epoch));
+        r
+    }
+
+    fn serve_inner(&mut self, n: u32, val: &Val, ctx: &str) -> Result<(), Failure> {
         let old = !self.cyclic && self.last_exec(n).is_some_and(|r| r.epoch < self.epoch);
         if self.cyclic && self.ambiguous && !self.static_acyclic(n) {
             // order-dependent membership: only termination is claimed here
@@ -569,8 +587,9 @@ impl<'p> Model<'p> {
                 *c += 1;
                 let count = *c;
                 let prev = self.last_exec(n).cloned();
+                self.clock += 1;
                 let rec = ExecRec {
-                    seq: inv.seq_exit,
+                    seq: self.clock,
                     epoch: self.epoch,
                     reads: inv.reads.clone(),
                     value: value.clone(),
